@@ -90,3 +90,78 @@ async fn sch_workflow_ends_after_its_setup_act() {
     assert!(open.is_empty(), "{open:?}");
     assert!(proc.state().is_completed());
 }
+
+/// a lifecycle hook act (`on: created`) of the workflow does not report back to it: the workflow does not wait for it
+#[tokio::test]
+async fn sch_workflow_does_not_wait_for_hook_act() {
+    let workflow = Workflow::new()
+        .with_id("w1")
+        .with_setup(|setup| {
+            setup.add(
+                Act::irq(|act| act.with_key("hook1"))
+                    .with_id("hook1")
+                    .with_on(crate::ActEvent::Created),
+            )
+        })
+        .with_step(|step| step.with_id("step1"));
+    let (engine, proc, tx, _) = create_proc_signal2::<()>(&workflow, &utils::longid());
+    let ended = Arc::new(Mutex::new(Vec::<String>::new()));
+    let emitter = engine.channel();
+    let e2 = ended.clone();
+    emitter.on_complete(move |e| {
+        e2.lock().unwrap().push(format!("{}", e.state));
+    });
+    let p = proc.clone();
+    emitter.on_message(move |e| {
+        if e.is_key("hook1") && e.is_state(crate::MessageState::Created) {
+            println!("hook1 created; tasks={:?}", p.tasks().iter().map(|t| format!("{}({})", t.node().id(), t.state())).collect::<Vec<_>>());
+        }
+    });
+    engine.runtime().launch(&proc);
+    let _ = tokio::time::timeout(Duration::from_secs(2), tx.recv()).await;
+    tokio::time::sleep(Duration::from_millis(300)).await;
+    let ended = ended.lock().unwrap().clone();
+    println!("ended={ended:?} root={} tasks={:?}", proc.state(), proc.tasks().iter().map(|t| format!("{}({})", t.node().id(), t.state())).collect::<Vec<_>>());
+    assert_eq!(ended, vec!["completed".to_string()]);
+}
+
+/// the setup act is answered while an act of a step is still open: the workflow goes on
+#[tokio::test]
+async fn sch_workflow_goes_on_after_its_setup_act() {
+    let workflow = Workflow::new()
+        .with_id("w1")
+        .with_setup(|setup| setup.add(Act::irq(|act| act.with_key("act1")).with_id("act1")))
+        .with_step(|step| step.with_id("step1"))
+        .with_step(|step| {
+            step.with_id("step2")
+                .with_act(Act::irq(|act| act.with_key("act2")).with_id("act2"))
+        });
+    let (engine, proc, tx, _) = create_proc_signal2::<()>(&workflow, &utils::longid());
+    let ended = Arc::new(Mutex::new(Vec::<String>::new()));
+    let emitter = engine.channel();
+    let e2 = ended.clone();
+    emitter.on_complete(move |e| {
+        e2.lock().unwrap().push(format!("{}", e.state));
+    });
+    emitter.on_message(move |e| {
+        if e.is_key("act1") && e.is_state(crate::MessageState::Created) {
+            e.do_action(&e.pid, &e.tid, crate::event::EventAction::Next, &crate::Vars::new())
+                .unwrap();
+        }
+    });
+    engine.runtime().launch(&proc);
+    let _ = tokio::time::timeout(Duration::from_secs(2), tx.recv()).await;
+    tokio::time::sleep(Duration::from_millis(300)).await;
+    let ended = ended.lock().unwrap().clone();
+    let tasks = proc
+        .tasks()
+        .iter()
+        .map(|t| format!("{}({})", t.node().id(), t.state()))
+        .collect::<Vec<_>>();
+    println!("ended={ended:?} root={} tasks={tasks:?}", proc.state());
+    assert!(
+        ended.is_empty() && proc.state().is_running(),
+        "terminal event {ended:?}, root {} while {tasks:?}",
+        proc.state()
+    );
+}
